@@ -60,6 +60,7 @@ class Env(object):
         self.shared_children = []
         self.in_shared = 0
         self.max_in_shared = 0
+        self.layered = False
 
     def next_n(self, who):
         k = self.ids.get(who, 0) + 1
@@ -197,7 +198,24 @@ def make_genfn(env, who, body, base_holder, may_spawn=True):
 
     genfn.__name__ = "gen_" + who.replace(".", "_")
     if env.decorated:
-        return eliot_friendly_generator_function(genfn)
+        inner = eliot_friendly_generator_function(genfn)
+        if not env.layered:
+            return inner
+        # an application decorator (functools.wraps) around the decorated generator function, itself a generator
+        # function and decorated in turn
+        import functools
+
+        @functools.wraps(inner)
+        def outer():
+            first = current_action()
+            try:
+                r = yield from inner()
+            finally:
+                if current_action() is not first:
+                    env.errors.append("%s: the wrapping generator sees current_action() %s when it is left, it was started in %s" % (who, conc._desc(current_action()), conc._desc(first)))
+            return r
+
+        return eliot_friendly_generator_function(outer)
     return genfn
 
 
@@ -208,6 +226,7 @@ def drive(case, decorated):
     msgs = []
     fresh.add(lambda m: msgs.append(dict(m)))
     env = Env(decorated)
+    env.layered = bool(case.get("layered"))
     env.action_models = {}
     unraisable = []
     old_hook = sys.unraisablehook
@@ -405,6 +424,8 @@ def classify(case, info):
     labels = ["gens=%d" % len(case["gens"]), "driver-contexts=%d" % info["ctxs"]] + ["op:" + o for o in info["ops"]]
     labels += ["resumed-via:" + {0: "same-Context-object", 1: "copied-Context", 2: "other-thread"}[v] for v in info.get("vias", [])]
     text = canon(case["gens"])
+    if case.get("layered"):
+        labels.append("decorated-again-below-a-functools.wraps-decorator")
     if info.get("max_in_shared", 0) >= 2:
         labels.append("two-generators-inside-the-shared-action's-context-at-once")
     if any(c is not None for c in case.get("create_ctx") or []):
@@ -454,7 +475,8 @@ def strategy():
     ).map(list)
     return st.integers(1, 3).flatmap(
         lambda n: st.builds(
-            lambda wrap, created, script, gens: {"create_ctx": created, "script": script, "gens": [[["shared", g]] for g in gens] if wrap else gens},
+            lambda layered, wrap, created, script, gens: {"layered": layered, "create_ctx": created, "script": script, "gens": [[["shared", g]] for g in gens] if wrap else gens},
+            st.sampled_from([False, False, True]),
             st.sampled_from([False, False, False, True]),
             st.lists(st.sampled_from([None, None, 0, 1, 2, 3]), min_size=n, max_size=n),
             st.lists(step, min_size=1, max_size=14),
